@@ -91,6 +91,13 @@ def cases(rng, tier):
             sp, sq = _scales(rng, g, 2)[-1], _scales(rng, g, 2)[-1]
             cs.append(Case(pre + "add", [g.spec] + proj_tokens(P, sp) + proj_tokens(Q, sq)))
             cs.append(Case(pre + "eq", [g.spec] + proj_tokens(P, sp) + proj_tokens(Q, sq)))
+        # co-Z pairs (one shared non-unit denominator) and half-normalised pairs
+        for _ in range(n):
+            P, Q = rng.choice(pts), rng.choice(pts)
+            s = _scales(rng, g, 2)[-1]
+            for (sp, sq) in ((s, s), (s, g.b.like(1)), (g.b.like(1), s), (s, -s)):
+                cs.append(Case(pre + "add", [g.spec] + proj_tokens(P, sp) + proj_tokens(Q, sq)))
+                cs.append(Case(pre + "eq", [g.spec] + proj_tokens(P, sp) + proj_tokens(Q, sq)))
         # line functions as the Miller loops call them: P1, P2 in G2-like coordinates, T anywhere (same field here)
         if g.grp != "G12" or tier == "thorough":
             for _ in range(n):
@@ -256,6 +263,14 @@ def predicates(rng, tier, only=None):
             P, Q, T = rng.choice(pts), rng.choice(pts), rng.choice(pts)
             ps.append(Pred("formulas-vs-affine", formula_pred,
                            (gi, P, Q, T, rand_scale(rng, g.b), rand_scale(rng, g.b), rand_scale(rng, g.b))))
+        # RELATED representatives: the operands share one non-unit denominator (co-Z, as add() itself returns for P+Q / P-Q),
+        # or one is normalised and the other is not — a shortcut keyed on z1 == z2 or on z == 1 is invisible to independent scalings
+        for _ in range(2):
+            P, Q, T = rng.choice(pts), rng.choice(pts), rng.choice(pts)
+            s = rand_scale(rng, g.b)
+            one = g.b.like(1)
+            for (sp, sq, st) in ((s, s, s), (s, s, one), (one, s, s), (s, one, one), (s, -s, s)):
+                ps.append(Pred("formulas-vs-affine", formula_pred, (gi, P, Q, T, sp, sq, st)))
     P_, N_ = O.SECP_P, O.SECP_N
     G = (O.Fp(O.SECP_G[0], P_), O.Fp(O.SECP_G[1], P_))
     for _ in range(n * 3):
